@@ -149,6 +149,9 @@ DIMENSIONS = collections.OrderedDict([
         ('trailing-separator', 'RFC 7489 6.4: dmarc-record = ... [dmarc-sep]'),
         ('order', 'RFC 7489 6.4: "components other than dmarc-version and dmarc-request may appear in any order"'),
         ('unknown-tags', 'RFC 7489 6.3: "Unknown tags MUST be ignored."'),
+        ('keyword-value-case', 'RFC 7489 6.4 defines the values of p, sp, adkim, aspf, fo and rf by quoted ABNF literals '
+                               '("none" / "quarantine" / "reject", "r" / "s", "0" / "1" / "d" / "s", "afrf"); RFC 5234 '
+                               '2.3: "ABNF strings are case insensitive"'),
     ])),
     ('MTA-STS', collections.OrderedDict([
         ('wsp-sp', _STS_SEP),
@@ -830,15 +833,17 @@ def layout(model):  # pylint: disable=too-many-branches,too-many-statements
                  for directive in model['directives']]
         return {'items': items, 'sep': ';', 'fixed': len(items), 'known': ()}
     if kind == 'DMARC':
-        items = [_item('v', 'DMARC1'), _item('p', model['p']), _item('adkim', model['adkim']),
-                 _item('aspf', model['aspf']), _item('fo', model['fo']), _item('pct', '%d' % model['pct'])]
+        def keyword(name, value):
+            return dict(_item(name, value), value_case_dim='keyword-value-case')
+        items = [_item('v', 'DMARC1'), keyword('p', model['p']), keyword('adkim', model['adkim']),
+                 keyword('aspf', model['aspf']), keyword('fo', model['fo']), _item('pct', '%d' % model['pct'])]
         if model['rua'] is not None:
             items.append(_item('rua', model['rua']))
         if model['ruf'] is not None:
             items.append(_item('ruf', model['ruf']))
-        items.extend([_item('rf', 'afrf'), _item('ri', '%d' % model['ri'])])
+        items.extend([keyword('rf', 'afrf'), _item('ri', '%d' % model['ri'])])
         if model['sp'] is not None:
-            items.append(_item('sp', model['sp']))
+            items.append(keyword('sp', model['sp']))
         return {'items': items, 'sep': ';', 'fixed': 2, 'known': DMARC_TAGS, 'eq_dim': 'wsp-around-equals'}
     if kind in ('MTA-STS', 'TLSRPT'):
         if kind == 'MTA-STS':
@@ -966,7 +971,10 @@ def _render_list(lay, spelling):  # pylint: disable=too-many-branches,too-many-l
         if eq_dim in spelling:
             pair = _cycle(spelling[eq_dim].get('gaps') or [], item['at'], ['', ''])
             before, after = _ws(pair[0]), _ws(pair[1])
-        texts.append('%s%s=%s%s' % (name, before, after, '"%s"' % item['value'] if quoted else item['value']))
+        value = item['value']
+        if item.get('value_case_dim') in spelling:
+            value = recase(value, spelling[item['value_case_dim']])
+        texts.append('%s%s=%s%s' % (name, before, after, '"%s"' % value if quoted else value))
     extras = {}
     if 'empty-elements' in spelling:
         low = lay.get('first_gap', 0)
